@@ -112,7 +112,7 @@ SplitVerdict(s, ev) ==
          IF Len(fs) # a.k THEN "split:number-of-folds"
          ELSE IF ~BagEq(Flat([f \in 1..Len(fs) |-> fs[f].val]), s.table) THEN "split:validation-parts-not-a-partition"
          ELSE IF \E f \in 1..Len(fs) : ~BagEq(fs[f].est \o fs[f].val, s.table) THEN "split:estimation-not-complement"
-         ELSE IF ~SplitOK(s.table, s.cols, a.k, g, fs) THEN "split:group-separated"
+         ELSE IF ~GroupsIntact(s.cols, g, fs) THEN "split:group-separated"
          ELSE "ok"
 
 SampleVerdict(s, ev) ==
@@ -141,10 +141,14 @@ ExtractVerdict(s, ev) ==
 FlattenVerdict(s, ev) ==
     IF s.pcol = "" THEN (IF ev.err = "BiogemeError" THEN "ok" ELSE "flatten:refusal")
     ELSE IF ev.err # "" THEN "flatten:refusal"
-    ELSE LET want == FlattenRes(s.table, s.cols, s.pcol, ev.a.kind) IN
-         IF Len(ev.ret) # Len(want) \/ \E k \in 1..Len(want) : ev.ret[k].id # want[k].id THEN "flatten:individuals"
-         ELSE IF \E k \in 1..Len(want) : ev.ret[k].common # want[k].common THEN "flatten:common-columns"
-         ELSE IF \E k \in 1..Len(want) : ev.ret[k].obs # want[k].obs THEN "flatten:observations"
+    ELSE \* the flat table is a mapping individual -> line: the order of the lines is not compared
+         LET want == FlattenRes(s.table, s.cols, s.pcol, ev.a.kind)
+             Line(id) == ev.ret[CHOOSE k \in 1..Len(ev.ret) : ev.ret[k].id = id]
+         IN
+         IF Len(ev.ret) # Len(want) \/ {ev.ret[k].id : k \in 1..Len(ev.ret)} # {want[k].id : k \in 1..Len(want)}
+         THEN "flatten:individuals"
+         ELSE IF \E k \in 1..Len(want) : Line(want[k].id).common # want[k].common THEN "flatten:common-columns"
+         ELSE IF \E k \in 1..Len(want) : Line(want[k].id).obs # want[k].obs THEN "flatten:observations"
          ELSE "ok"
 
 ObsVerdict(s, ev) ==
